@@ -39,6 +39,29 @@ CHECKS = {
         technique="TLC model checking with a descriptor order defined independently of the implementation-shaped matcher (specificity ranks), over a family of key sets x event types incl. synthetic events and null transitions; edge replay + trace validation",
         text="Prop C20 computes, for every observed selection, the nominee of each active leaf using its own specificity order (exact, partial by decreasing prefix length, wildcard; synthetic done./error./after./xstate. types exact only; a null transition consumes the event at that state) and requires the selection to equal it. Family E: child/parent/root key subsets from a universe of exact, partial, wildcard, look-alike and synthetic keys with guards and null entries; every event type from every reachable state and guard valuation.",
         design="DESIGN.md section 8 C20"),
+    "C07": dict(
+        technique="TLC model checking of the Impl layer with fault plans (a clean and a faulty twin of every step compared by Prop C07), aborting-error family, edge replay of faulty steps, replay with always-raising plugin/subscriber/listener, trace validation of observed twins",
+        text="For every reachable state x relevant event the step is explored fault-free and once per user action its fault-free run executes with that action raising (pairs in the thorough tier); Prop C07Pair requires the faulty run to equal its clean twin on configurations, status, history and every action outside the faulted list, the faulted list's remainder to be skipped, and on_action_error to be notified; C07Abort requires an aborted transition (unimplemented action, family F) to restore the configuration, re-arm exactly the exited states, and leave the interpreter running. Faulty edges are replayed on both engines; every edge is also replayed with a plugin whose every hook raises, a raising subscriber and a raising emit listener and must equal the run with well-behaved observers.",
+        design="DESIGN.md section 8 C07"),
+    "C08": dict(
+        technique="TLA+ scheduling layer (spec/SCSched.tla: virtual time, timers with deadlines and creation order, slow suspending actions, stop) model-checked with TLC; every edge replayed on the real asyncio Interpreter under a virtual-time event loop; divergent runs trace-validated (spec/TraceSched.tla)",
+        text="TLC explores all placements of sends, waits, deadline instants (handles of one instant in creation order) and stop() up to a depth/horizon over family X (one/two timers, equal deadlines, guarded candidates, periodic re-entry, named delays, nested and parallel owners, 100 ms suspending actions) and evaluates Prop C08 on every edge: an after transition fires only when its state has been continuously active for the delay since its most recent entry, at most once per activation, at the deadline when idle, never after exit or stop. Every edge is executed on the real async engine under virtual time and compared on configuration, queue contents, virtual now, live timers with deadlines, busy-until and the visible log.",
+        design="DESIGN.md section 8 C08",
+        note="Trusted: TLC; harness/vloop.py (virtual-time asyncio loop firing handles in (when, creation) order); the traced Interpreter subclass. Async engine only: the sync engine's timer threads are not driven deterministically by this check."),
+    "C09": dict(
+        technique="TLA+ scheduling layer with invoked services as driver-controlled futures (resolve/reject at any driver step), TLC model checking, edge replay on the real async engine under virtual time, trace validation",
+        text="Family V (one/two invocations, with and without onError, beside timers, on parent and child, onDone re-entering the invoker, slow actions): TLC explores every placement of service completion relative to queued events, slow actions, re-entry and stop; Prop C09 requires one start per entry, that no handler is driven by a result produced by an earlier activation, that a failure nobody handles sets the error status, and that no service task outlives its state or stop(). Every edge replayed under virtual time; live service tasks are part of the compared state.",
+        design="DESIGN.md section 8 C09",
+        note="Trusted: TLC; harness/vloop.py; driver-controlled service futures. Async engine; callables/coroutines as src (child machines as src are exercised by C15)."),
+    "C13": dict(
+        technique="TLC model checking of self-feeding chain machines with a fuel-bounded Impl layer (non-termination = Diverged on both sides), bursts of externally sent events, edge replay with a clock-free divergence detector, trace validation",
+        text="Family A (always rings/chains, self-raise, raise rings, exit-raise, onDone re-completion, mixed raise, raise inside eventless transitions; maxIterations 2/3/5, chain length below/at/above) on both engines, started by start() or an event, plus send_events bursts longer than the bound: Prop C13 requires termination, that a chain is never cut before the configured length, that a cut leaves a legal configuration and a running interpreter, and that no externally sent event is discarded. Divergence is detected without a clock (the recorder aborts a step after 10*(M+1) dequeues; the spec has the same fuel).",
+        design="DESIGN.md section 8 C13"),
+    "C14": dict(
+        technique="TLC model checking of lifecycle steps on the core layer (stop, repeated start, send after done/error/stopped from every reachable state, both engines) and on the scheduling layer (stop at every driver step with timers/services/slow actions pending), edge replay, trace validation",
+        text="Prop C14: status moves only along uninitialized->running->(done|error)->stopped (or running->stopped); start() is a no-op while running/done/failed and refuses with InvalidConfigError on a stopped interpreter; send() after done/error/stopped changes and runs nothing; stop() is idempotent from any status and leaves no timer, service task or busy consumer, and nothing is delivered afterwards (waits and deadlines after stop are explored).",
+        design="DESIGN.md section 8 C14",
+        note="Trusted: TLC, vloop, recorder. Sync engine: lifecycle on the core layer only (its timer / delayed-send threads are not driven)."),
     "C10": dict(
         technique="TLC model checking + edge replay + trace validation; completions counted as rising edges of in-final along the configuration reconstructed from entry/exit witnesses of each step",
         text="Prop C10 (spec/SCProps.tla) checks on every explored/observed step: done.state events are raised exactly for completions (literal reading as lower bound, the engine's recursive reading as upper bound), a parallel state's onDone is never taken while a region is not final, a top-level final state sets status done exactly once with the right output, nothing runs for events dequeued after completion, and sends to a done machine change nothing. Families D (completion nests), R (reactions, events queued behind completion), T.",
